@@ -88,6 +88,11 @@ func (in *Interp) builtin(name string, args []Value, c *ssa.CallCommon) Value {
 			// modelling choice: the new capacity equals the needed length (Go guarantees only >=)
 			return &SliceV{obj: &ArrObj{node: node, ew: d.obj.ew}, off: IX(0), len: nl, cap: nl}
 		}
+	case "ssa:wrapnilchk":
+		if p, ok := args[0].(*PtrV); ok && p.cell == nil && p.arr == nil {
+			in.goPanic("value method called using nil pointer")
+		}
+		return args[0]
 	case "close":
 		ch, _ := args[0].(*ChanV)
 		if ch == nil || ch.closed {
